@@ -42,3 +42,51 @@ package exec
 //@   ensures isInf(n) ==> r == n                           @inf
 //@   ensures !isNaN(n) && !isInf(n) && !negtie(n) ==> xpround(n, r)   @nearest
 //@   ensures negtie(n) ==> xpround(n, r)                              @nearest-negtie
+
+//@ extern strconv.FormatFloat(f, fmt, prec, bits) (r)
+//@   pure
+//@   uses values
+//@   ensures fmt == 102 && prec == 0 - 1 && bits == 64 && !isNaN(f) && !isInf(f) ==> r == fmtf(f)
+//@   ensures isNaN(f) ==> r == "NaN"
+
+// ---------- exec/result.go ----------
+
+//@ func Bool.String(b) (r)
+//@   property C04
+//@   uses values
+//@   ensures r == toStr(VBool(b))
+
+//@ func Bool.Number(b) (r)
+//@   property C04
+//@   uses values
+//@   ensures r == toNum(VBool(b))
+
+//@ func Bool.Bool(b) (r)
+//@   property C04
+//@   uses values
+//@   ensures r == toBool(VBool(b))
+
+//@ func Number.String(n) (r)
+//@   property C04
+//@   uses values
+//@   ensures r == toStr(VNum(n))
+
+//@ func Number.Number(n) (r)
+//@   property C04
+//@   uses values
+//@   ensures r == toNum(VNum(n))
+
+//@ func Number.Bool(n) (r)
+//@   property C04
+//@   uses values
+//@   ensures r == toBool(VNum(n))
+
+//@ func String.String(n) (r)
+//@   property C04
+//@   uses values
+//@   ensures r == toStr(VStr(n))
+
+//@ func String.Bool(n) (r)
+//@   property C04
+//@   uses values
+//@   ensures r == toBool(VStr(n))
